@@ -44,7 +44,7 @@ def build(tier, seed):
                 'x container {ndarray,list,tuple} x min_dt_ratio %s (+ a descending list on the object path); non-trivial = record x dt' % (
                     L, list(DTS), [list(p) for p in PLISTS], list(XIS), list(MDR)),
         'bounds': {'alphabet': [-1, 0, 2], 'max_len': L, 'dt': DTS, 'period_lists_in_dt': PLISTS, 'xi': XIS, 'min_dt_ratio': MDR},
-        'required_classes': ['T<6dt', 'T>=6dt', 'T=0', 'container-list', 'container-tuple', 'refined-f>1', 'unrefined-f=1',
+        'required_classes': ['T<6dt', 'T>=6dt', 'T=0', 'container-list', 'container-tuple', 'container-int', 'refined-f>1', 'unrefined-f=1',
                              'xi=0-true-equals-pseudo', 'energy>0', 'object-descending-periods'],
         'assumptions': ['reference peaks from the 40-digit exact response (mcheck/refs/sdof_ref.py) with the tolerance of C01',
                         'object path (e): which integer refinement factor float rounding of dt/target lands on (f or f+1) and whether the '
@@ -303,6 +303,43 @@ def run_case(case):
                             r.fail('e.object-lazy', base, 'lazy s_d/s_v/s_a differ from gen_response_spectrum(xi=0.05, min_dt_ratio=4)', observed=g1, expected=g2)
                     except Exception as e:
                         r.fail('e.object-lazy', base, 'malformed: %s' % e)
+    # ---- d (continued): integer-typed period containers (python ints / integer ndarray, with and without a leading 0) give the
+    # same spectra as the same periods given as floats - array functions and object path
+    for ints in ((0, 1, 3), (1, 3), (0, 2)):
+        if any(p and not (0.2 <= p / dt <= 2e4) for p in ints):
+            continue
+        fl = np.array(ints, dtype=float)
+        for xi in (0.0, 0.05):
+            base = {'rec': rec, 'dt': dts, 'periods_s': list(ints), 'xi': xi}
+            okp, ps = r.call('d.containers', dict(base, fn='pseudo', container='float-ndarray'), sdof.pseudo_response_spectra, a, dt, fl, xi)
+            okt, ts = r.call('d.containers', dict(base, fn='true', container='float-ndarray'), sdof.true_response_spectra, a, dt, fl, xi)
+
+            def obj(periods):
+                s = eqsig.AccSignal(a, dt, response_times=periods)
+                s.gen_response_spectrum(xi=xi)
+                return s.s_d, s.s_v, s.s_a
+            oko, os_ = r.call('d.containers', dict(base, fn='object', container='float-ndarray'), obj, fl)
+            for cname, conv in (('int-list', list), ('int-tuple', tuple), ('int-ndarray', lambda p: np.array(p, dtype=np.int64))):
+                r.cls('container-int')
+                for nm, fn, ok0, ref0 in (('pseudo', lambda p: sdof.pseudo_response_spectra(a, dt, p, xi), okp, ps),
+                                          ('true', lambda p: sdof.true_response_spectra(a, dt, p, xi), okt, ts),
+                                          ('object', obj, oko, os_)):
+                    if not ok0 or (nm == 'object' and cname != 'int-ndarray'):
+                        continue
+                    sub = dict(base, fn=nm, container=cname)
+                    ok, g = r.call('d.containers', sub, fn, conv(ints))
+                    if not ok:
+                        continue
+                    r.n_cmp += 1
+                    try:
+                        same = len(g) == len(ref0) and all(
+                            np.asarray(x).shape == np.asarray(y).shape and np.allclose(np.asarray(x, dtype=float), np.asarray(y, dtype=float), rtol=1e-12, atol=0)
+                            for x, y in zip(g, ref0))
+                    except Exception:
+                        same = False
+                    if not same:
+                        r.fail('d.containers', sub, '%s spectra for integer-typed periods %r differ from the same periods as floats' % (nm, list(ints)),
+                               observed=g, expected=ref0)
     return r
 
 
